@@ -30,8 +30,9 @@ def main():
         if rc:
             print(name, "PATCH DOES NOT APPLY", out[-300:])
             return 1
-        rc_m, out_m = sh(f"timeout 900 {PY} {src}/demo.py", cwd=wt)
-        rc_c, out_c = sh(f"timeout 900 {PY} {src}/demo.py", cwd="/repo")
+        # PYTHONPATH=. : the demo imports graphiq from the tree it is run in
+        rc_m, out_m = sh(f"PYTHONPATH={wt} timeout 900 {PY} {src}/demo.py", cwd=wt)
+        rc_c, out_c = sh(f"PYTHONPATH=/repo timeout 900 {PY} {src}/demo.py", cwd="/repo")
         meta["demo_rc_with_change"] = rc_m
         meta["demo_rc_without_change"] = rc_c
         meta["demo_output_with_change"] = out_m[-600:]
